@@ -242,6 +242,8 @@ impl ServerMetaContextOutput {
         let html_attrs = self.html.try_iter().collect::<String>();
         let body_attrs = self.body.try_iter().collect::<String>();
 
+        // where the `<head>` content that is inserted here ends in the modified chunk
+        let mut head_end = 0;
         let mut modified_chunk = if title_len == 0 && meta_buf.is_empty() {
             first_chunk
         } else {
@@ -267,23 +269,26 @@ impl ServerMetaContextOutput {
             }
             buf.push_str(before_head_close);
             buf.push_str(&meta_buf);
+            head_end = buf.len();
             buf.push_str(after_head);
             buf
         };
+
+        // the `<body>` tag can only come after the tags that were just written into the
+        // `<head>`: their text (e.g. the content of a `<Script/>`) may contain `<body` itself
+        if !body_attrs.is_empty() {
+            if let Some(index) = modified_chunk[head_end..].find("<body") {
+                // Calculate the position where the new string should be inserted
+                let insert_pos = head_end + index + "<body".len();
+                modified_chunk.insert_str(insert_pos, &body_attrs);
+            }
+        }
 
         if !html_attrs.is_empty() {
             if let Some(index) = modified_chunk.find("<html") {
                 // Calculate the position where the new string should be inserted
                 let insert_pos = index + "<html".len();
                 modified_chunk.insert_str(insert_pos, &html_attrs);
-            }
-        }
-
-        if !body_attrs.is_empty() {
-            if let Some(index) = modified_chunk.find("<body") {
-                // Calculate the position where the new string should be inserted
-                let insert_pos = index + "<body".len();
-                modified_chunk.insert_str(insert_pos, &body_attrs);
             }
         }
 
